@@ -204,6 +204,7 @@ type c15Op struct {
 	Hash  int    `json:"hash,omitempty"`  // call: 0 none, 1 mod hash, 2 consistent hash
 	Code  uint32 `json:"code,omitempty"`  // call: hash code
 	Defer bool   `json:"defer,omitempty"` // call: if this is an answered probe, leave the reinstatement to a later "reinst"
+	OneWay bool  `json:"oneway,omitempty"` // call (real-call histories): a one-way call (nothing is awaited)
 	L     []int  `json:"l,omitempty"`     // refresh: what the registry returns as active
 	I     []int  `json:"i,omitempty"`     // refresh: what the registry returns as inactive
 	// recorded
@@ -407,6 +408,11 @@ func (r *c15Run) always(op string, s c15Snap) {
 		}
 		sh.status = st
 	}
+	// the dedupe set is exactly the set of endpoints with a queued probe (C15_probe_queue_dedupe): an endpoint in the set
+	// but not in the queue would never be probed again
+	if s.q != uint64(popcount(s.pset)) {
+		r.fail("failover/probe-queue-and-dedupe-set-disagree", fmt.Sprintf("after %q the probe queue holds %d adapter(s) but the dedupe set names %d endpoint(s) (%b): an endpoint in the set without a queued probe is locked out of future probes", op, s.q, popcount(s.pset), s.pset))
+	}
 	for e := 0; e < c15Universe; e++ {
 		// whatever the registry did with it meanwhile: a blocked endpoint re-enters rotation only through a successful probe
 		if r.epOut[e] && !r.shrunk && r.inAnySelector(s, e) {
@@ -548,8 +554,26 @@ func (r *c15Run) exec(op *c15Op, last bool) {
 				}
 			}
 		}
+		// no lock-out: a blocked endpoint whose probe interval has elapsed and whose ReConnect will succeed must be queued
+		var due []exp
+		nowSec := time.Now().Unix()
+		for _, e := range r.mgr.Registry() {
+			ei := c15EidOfHost(e)
+			if ai, ok := before.attached[ei]; ok && ai >= 0 && r.reach[ei] && !r.shrunk {
+				h := r.adps[ai].VerifC15Health()
+				if !h.Status && !h.Closed && nowSec-h.LastBlockTime >= 30 {
+					due = append(due, exp{ai, ei})
+				}
+			}
+		}
 		r.mgr.CheckStatus()
 		s := r.snap()
+		for _, d := range due {
+			if s.pset&(1<<uint(d.e)) == 0 {
+				r.fail("failover/probe-not-requested-when-due", fmt.Sprintf("endpoint %d is blocked, its last block/probe time is >= 30 s ago and it is reachable, but after the status check no probe of it is queued (dedupe set %b, queue length %d)", d.e, s.pset, s.q))
+			}
+			r.classes["probe-due"] = true
+		}
 		for _, m := range must {
 			if r.adps[m.ai].VerifC15Health().Status || (!r.shrunk && r.inAnySelector(s, m.e)) {
 				r.fail("failover/streak-not-blocked", fmt.Sprintf("endpoint %d had %d consecutive failures and no success for >= 5 s, but after the status check status=%v, selectors rr=%b ch=%b mh=%b", m.e, r.sh[m.ai].streak, r.adps[m.ai].VerifC15Health().Status, s.rr, s.ch, s.mh))
